@@ -59,7 +59,25 @@ def c17_jobs(tier):
     return [sim("c17-hostile", "c17", require_counters=["hostile_requests_answered"])]
 
 
+def c13_jobs(tier):
+    return [sim("c13-walks", "c13", require_counters=["walks_completed", "hostile_tokens_tried", "negative_size_rejected", "hostile_token_served", "hostile_token_rejected"])]
+
+
+def c15_jobs(tier):
+    return [sim("c15-grid", "c15", require_counters=["blocking_pull_timed_against_limit", "blocked_pull_woken_by_publish", "stream_limit_checked"])]
+
+
 PROPERTIES = {
+    "C13": {"level": "exploration", "jobs": c13_jobs, "engine": "dvsim",
+            "technique": "runtime monitoring against a creation-ordered reference list: complete pagination walks over a boundary grid and hostile page tokens, sequential episodes",
+            "level_text": "For resource counts {0,1,2,19,20,21,999,1000,1001,1005}, all three List RPCs, three interleaved projects (one sharing a name prefix) and deletion/re-creation histories, every page size of the boundary grid is walked to the empty token and compared with the model list (each resource once, creation order, page <= effective size, nothing foreign); negative sizes must be INVALID_ARGUMENT; hostile tokens (issued tokens shifted and truncated, random base64 of 0-16 bytes, non-base64, offsets up to 2^64-1) must be INVALID_ARGUMENT or yield a contiguous in-order slice, never a panic or hang. The grid is enumerated completely; token strings are sampled.",
+            "level_note": SIM_NOTE,
+            "assumptions": ["no concurrent create/delete during a walk (the property's precondition)"]},
+    "C15": {"level": "exploration", "jobs": c15_jobs, "engine": "dvsim",
+            "technique": "runtime monitoring on a virtual clock against the reference model: boundary grid of batch limits x backlog sizes incl. the 16-bit wrap-around values, blocking pulls timed against the 5-minute limit",
+            "level_text": "max_messages over {1,2,999,1000,1001,65535,65536,65537,131071,i32::MAX} x backlog sizes around the same values (quick: up to 3000; thorough: up to 70000), with and without return_immediately, pulled until drained: no response exceeds its limit, none is empty while messages are available, a blocking pull with messages available returns in the same virtual instant; a blocking pull on an empty subscription returns empty after exactly the 5-minute wait and a parked one is woken by a publish; StreamingPull responses are checked against max_outstanding_messages {1,2,1000,65535}. Grid enumerated completely, sequences sampled.",
+            "level_note": SIM_NOTE,
+            "assumptions": []},
     "C17": {"level": "exploration", "jobs": c17_jobs, "engine": "dvsim",
             "technique": "runtime monitoring with structured hostile-input generators: every answer judged (status, no panic/hang), full observable state compared with the reference model after every rejection",
             "level_text": "Thousands of sequential episodes send 20-30 requests with one corrupted field (or a pair) to a populated server: hostile and near-miss resource names in every RPC, boundary integers, ack-ID batches with one bad element at each position, hostile page tokens, unsupported push endpoints, malformed StreamingPull first and control messages. The monitor requires a gRPC status for each (never a panic, hang, UNKNOWN/INTERNAL or transport error), INVALID_ARGUMENT where C05/C13/C18 pin it, and after every error answer the hook stats of every subscription and all listings must equal the reference model's untouched state; at the end every subscription must still redeliver exactly the model's messages and a fresh round trip must work. Inputs are sampled from generators, so this is exploration.",
